@@ -337,6 +337,42 @@ def r7_relative_scheduling(ctx, cfg='A'):
         ctx.check(ok, 'relative-base-is-clock', 'add_event_in schedules at the current simulation clock + the given duration (no other base time)', s.where(),
                   [show(t)[:160] for t in tm])
 
+    # absolute scheduling: the instant given to add_event is handed down unchanged (no clamping / rounding on the way into the event set)
+    def is_time_arg(fn, x):
+        x = peel(x)
+        while x[0] == 'call' and x[1].endswith('Deref>::deref') and len(x[2]) == 1:     # SimTime derefs to its Duration
+            x = peel(x[2][0])
+        return x[0] == 'arg' and 'SimTime' in fn.local_ty(x[1])
+    g = P.fns.get('des::runtime::Runtime::add_event')
+    if g is None:
+        ctx.violation('anchor:add_event', 'unresolved-anchor Runtime::add_event'); return
+    ctx.touch(g)
+    sites = [s for s in g.calls() if s.name.endswith('FutureEventSet::add')]
+    if ctx.floor('event-set insertion in add_event', len(sites), 1):
+        ctx.check(all(len(s.args) > 1 and is_time_arg(g, g.expr_operand(s.args[1], s.b, 'T')) for s in sites), 'absolute-time-passed-through',
+                  'add_event files the event under exactly the instant it was given', sites[0].where(),
+                  [show(g.expr_operand(s.args[1], s.b, 'T'))[:120] for s in sites if len(s.args) > 1])
+    fes = [h for k, h in P.fns.items() if k.endswith('FutureEventSet::add') and k.startswith('des::runtime::event::')]
+    if ctx.floor('FutureEventSet::add', len(fes), 1):
+        for h in fes:
+            ctx.touch(h)
+            n = 0
+            bad = []
+            for s in h.calls():
+                if s.name == 'des_cqueue::stable::CQueue::add' and len(s.args) > 1:
+                    n += 1
+                    if not is_time_arg(h, h.expr_operand(s.args[1], s.b, 'T')):
+                        bad.append(show(h.expr_operand(s.args[1], s.b, 'T'))[:120])
+                elif s.name.split('::')[-1] in ('push', 'push_back', 'push_front', 'insert') and len(s.args) > 1:
+                    v = peel(h.expr_operand(s.args[-1], s.b, 'T'))
+                    if v[0] == 'agg' and len(v) > 3 and 'time' in v[3]:
+                        n += 1
+                        tv = v[2][list(v[3]).index('time')]
+                        if not is_time_arg(h, tv):
+                            bad.append(show(tv)[:120])
+            if ctx.floor('insertions in FutureEventSet::add', n, 1):
+                ctx.check(not bad, 'event-set-time-passed-through', 'the event set stores an event under exactly the instant it was given', h.where(), bad)
+
 
 def run(ctx):
     r6_bound_is_last_emitted(ctx)
